@@ -73,7 +73,7 @@ async def _run(segments, max_steps):
 
     conn = Conn(K.proto(), "S", "T", Journaler(), "h", 1, 30)
 
-    class _Lg:
+    class _Lg(C.LogBase):
         def exception(self, *a, **k):
             import sys
             e = sys.exc_info()[1]
